@@ -7,6 +7,7 @@ import (
 	"context"
 	"fmt"
 	"log/slog"
+	"sort"
 	"strings"
 	"time"
 	"unicode/utf8"
@@ -253,6 +254,14 @@ type Tokenizer struct {
 	dialect    keywords.SQLDialect // SQL dialect for dialect-specific keyword recognition
 	logger     *slog.Logger        // Optional structured logger for verbose tracing
 	Comments   []models.Comment    // Comments captured during tokenization
+
+	// Memo of the last offset-to-column conversion (see toSQLPosition): tokens
+	// are located in increasing offset order, so the column of the next token
+	// is computed from the previous one instead of from the start of the line.
+	colMemoLineStart int
+	colMemoIndex     int
+	colMemoColumn    int
+	colMemoValid     bool
 }
 
 // New creates a new Tokenizer with default configuration and keyword support.
@@ -412,6 +421,7 @@ func (t *Tokenizer) Tokenize(input []byte) ([]models.TokenWithSpan, error) {
 	// Reset state
 	t.Reset()
 	t.input = input
+	t.colMemoValid = false
 
 	// Pre-allocate line starts slice - reuse if possible
 	estimatedLines := len(input)/50 + 1 // Estimate 50 chars per line + 1 for initial 0
@@ -545,6 +555,7 @@ func (t *Tokenizer) TokenizeContext(ctx context.Context, input []byte) ([]models
 	// Reset state
 	t.Reset()
 	t.input = input
+	t.colMemoValid = false
 
 	// Pre-allocate line starts slice - reuse if possible
 	estimatedLines := len(input)/50 + 1 // Estimate 50 chars per line + 1 for initial 0
@@ -1630,28 +1641,37 @@ func (t *Tokenizer) readPunctuation() (models.Token, error) {
 
 // toSQLPosition converts an internal Position => a models.Location
 func (t *Tokenizer) toSQLPosition(pos Position) models.Location {
-	// Find the line containing pos
+	// Find the line containing pos: the last line start that is <= pos.Index
+	// (binary search over the sorted lineStarts table).
 	line := 1
 	lineStart := 0
-
-	// Find the line number using lineStarts
-	for i := 0; i < len(t.lineStarts); i++ {
-		if t.lineStarts[i] > pos.Index {
-			break
-		}
-		line = i + 1
-		lineStart = t.lineStarts[i]
+	if n := sort.Search(len(t.lineStarts), func(i int) bool { return t.lineStarts[i] > pos.Index }); n > 0 {
+		line = n
+		lineStart = t.lineStarts[n-1]
 	}
 
 	// Calculate column by counting characters from line start
 	// Column is 1-based, so we start at 1
 	column := 1
-	for i := lineStart; i < pos.Index && i < len(t.input); i++ {
+	from := lineStart
+	if t.colMemoValid && t.colMemoLineStart == lineStart && t.colMemoIndex <= pos.Index {
+		// continue from the previous conversion on the same line
+		column = t.colMemoColumn
+		from = t.colMemoIndex
+	}
+	end := pos.Index
+	if end > len(t.input) {
+		end = len(t.input)
+	}
+	for i := from; i < end; i++ {
 		if t.input[i] == '\t' {
 			column += 4 // Treat tab as 4 spaces
 		} else {
 			column++
 		}
+	}
+	if end >= from {
+		t.colMemoLineStart, t.colMemoIndex, t.colMemoColumn, t.colMemoValid = lineStart, end, column, true
 	}
 
 	// Ensure column is never less than 1
@@ -1705,11 +1725,8 @@ func isIdentifierChar(r rune) bool {
 func (t *Tokenizer) hasCodeBeforeOnLine(idx int) bool {
 	// Find the start of the line containing idx
 	lineStart := 0
-	for i := len(t.lineStarts) - 1; i >= 0; i-- {
-		if t.lineStarts[i] <= idx {
-			lineStart = t.lineStarts[i]
-			break
-		}
+	if n := sort.Search(len(t.lineStarts), func(i int) bool { return t.lineStarts[i] > idx }); n > 0 {
+		lineStart = t.lineStarts[n-1]
 	}
 	// Check for non-whitespace between lineStart and idx
 	for i := lineStart; i < idx && i < len(t.input); i++ {
